@@ -52,6 +52,7 @@ type xlFunc struct {
 	RecGroup string   // mutually recursive functions (consecutive whitelist entries with the same group) are emitted in one `mutual` block
 	External string   // already emitted in another generated file under this qualified Lean name: translated for the call interface only
 	Plain    bool     // `interface{}` is a PLAIN Go value (`Val`: scalar / []interface{} / map[string]interface{}) — the codec side; otherwise it is a leaf's value (`Scalar`)
+	Curried  bool     // the body is `return func(params) T { … }`: translated uncurried, the literal's parameters behind the function's own
 	Dispatch string   // synthetic entry (translate_dispatch.go): the dynamic dispatch of the interface method dom.<Dispatch>.<Name> on the implementations
 }
 
